@@ -20,6 +20,7 @@ import (
 	"encoding/json"
 	"fmt"
 	"math/rand"
+	"os"
 	"sort"
 	"testing"
 
@@ -28,6 +29,7 @@ import (
 	"k8s.io/apimachinery/pkg/api/resource"
 	metav1 "k8s.io/apimachinery/pkg/apis/meta/v1"
 	"k8s.io/apimachinery/pkg/types"
+	"k8s.io/apimachinery/pkg/util/sets"
 	"k8s.io/client-go/tools/cache"
 	fwktype "k8s.io/kube-scheduler/framework"
 	"k8s.io/kubernetes/pkg/scheduler/framework"
@@ -233,7 +235,7 @@ func vtC19Snapshot(obs []int64, inst *vtC19Inst, nnodes, ncpuObs, nnuma int64, n
 				obs = append(obs, int64(info.RefCount), vtC19ExclEnum(info.ExclusivePolicy))
 			}
 		}
-		mask := func(s map[string]struct{}) int64 {
+		mask := func(s sets.String) int64 {
 			var m int64
 			for u := 1; u <= npods; u++ {
 				if _, ok := s[string(vtC19UID(u))]; ok {
@@ -342,6 +344,13 @@ func vtC19NumaExec(in []int64) []int64 {
 					}
 					b.rsv.Status.NodeName = node
 					b.rsv.Status.Phase = schedulingv1alpha1.ReservationAvailable
+				}
+				if os.Getenv("VERIF_DEBUG") != "" {
+					if b.pod != nil {
+						fmt.Fprintf(os.Stderr, "bind pod %d annotations %v\n", u, b.pod.Annotations)
+					} else {
+						fmt.Fprintf(os.Stderr, "bind rsv %d annotations %v template %v reservePod %v\n", u, b.rsv.Annotations, b.rsv.Spec.Template.Annotations, reservationutil.NewReservePod(b.rsv).Annotations)
+					}
 				}
 				live.onUpdate(pending[u], b)
 				stored[u] = b
